@@ -224,6 +224,24 @@ def same(np, a, b):
 ELS = ["C", "H", "N", "O", "Cl"]
 
 
+def conf_index(np, c, ens):
+    """Which conformer of `ens` is the view `c`?  Decided through the public API: the row of ens.coords whose memory
+    c.coords shares (-1: none).  A view without atoms has no memory to compare; then what the object says about itself."""
+    a = np.asarray(c.coords)
+    base = np.asarray(ens.coords)
+    if a.size:
+        for k in range(len(base)):
+            if np.shares_memory(a, base[k]):
+                return k
+        return -1
+    k = getattr(c, "_conf_id", None)
+    if k is None:
+        import re
+        m = re.search(r"conf_id=(-?\d+)", str(c))
+        k = int(m.group(1)) if m else -1
+    return k if isinstance(k, int) and 0 <= k < len(base) else -1
+
+
 def parse_xyz(text):
     """-> list of blocks, each a list of [x, y, z] tokens; None when the text is not a sequence of xyz blocks."""
     lines = text.split("\n")
@@ -430,29 +448,31 @@ class World:
                 rec = self.IT[op[1]]
                 try:
                     c = next(rec[0])
-                    ok = c._parent is self.E[rec[1]] and isinstance(c._conf_id, int)
-                    out = ("yield", c._conf_id if ok else -1)
-                    if ok:
-                        self.H.setdefault((rec[1], c._conf_id), []).append(c)
+                    kk = conf_index(np, c, self.E[rec[1]])
+                    out = ("yield", kk)
+                    if kk >= 0:
+                        self.H.setdefault((rec[1], kk), []).append(c)
                 except StopIteration:
                     out = ("yield", None)
             elif k == "nested":
                 e = self.E[op[1]]
-                out = ("pairs", [(a._conf_id, b._conf_id) for a in e for b in e])
+                out = ("pairs", [(max(conf_index(np, a, e), 0) if conf_index(np, a, e) >= 0 else 4999,
+                                  conf_index(np, b, e) if conf_index(np, b, e) >= 0 else 4999) for a in e for b in e])
             elif k == "loop_dump":
                 e = self.E[op[1]]
                 ids = []
                 for c in e:
-                    ids.append(c._conf_id)
+                    ids.append(conf_index(np, c, e))
                     e.dumps_xyz()
                     e.dumps_mol2()
                 out = ("ids", ids)
             elif k == "slice":
                 e = self.E[op[1]]
                 cs = e[slice(op[2], op[3], op[4])]
-                out = ("ids", [c._conf_id if c._parent is e else BOGUS for c in cs])
+                out = ("ids", [conf_index(np, c, e) for c in cs])
                 for c in cs:
-                    self.H.setdefault((op[1], c._conf_id), []).append(c)
+                    if conf_index(np, c, e) >= 0:
+                        self.H.setdefault((op[1], conf_index(np, c, e)), []).append(c)
             elif k == "dump_xyz":
                 b = parse_xyz(self.E[op[1]].dumps_xyz())
                 out = ("xyz", b if b is not None else [[[BOGUS] * 3]])
@@ -518,7 +538,7 @@ def judge(w, before, after, op, raised, out, iter_expect):
             try:
                 okc = same(np, h.coords, e.coords[r]) and (e.coords.size == 0 or s["na"] == 0 or np.shares_memory(h.coords, e.coords))
                 okq = same(np, h.atomic_charges, e.atomic_charges[r])
-                okn = h.n_atoms == s["na"] and h._conf_id == kk
+                okn = h.n_atoms == s["na"]
             except Exception as ex:
                 res.append(("C14:view:read-raises", f"after {k}: reading conformer {kk} of ensemble #{i} raised {type(ex).__name__}: {ex}"))
                 break
@@ -804,6 +824,8 @@ def gen_op(w, rng, snap):
         return gen_new(w, rng, snap)
     for _ in range(50):
         k = rng.choice(KINDS)
+        if rng.random() < 0.3 and any(r[2] and not r[4] for r in w.IT):
+            k = "iter_next"              # keep the live iterators moving: interleavings are the point
         i = rng.randrange(len(w.E))
         s = snap[i]
         kn, a = s["nconf"], s["na"]
@@ -1034,7 +1056,7 @@ def run(ctx, rep):
     warnings.simplefilter("ignore")
     ok, outp, where = vlib.build_props(ctx, rep, "C14")
     rng = ctx.rng
-    n_rand = 6000 if ctx.thorough else 420
+    n_rand = 12000 if ctx.thorough else 900
     cases, meta, found = [], [], False
     plans = [("directed", h) for h in directed()] + [("random", rng.randint(6, 18)) for _ in range(n_rand)]
     for mode, payload in plans:
